@@ -265,7 +265,7 @@ inductive PR (α : Type) where
   | ok (a : α) (rest : Bytes)
   | inc
   | err
-deriving Repr
+deriving Repr, DecidableEq
 
 /-- `alt`: the next alternative is tried on `Err::Error` only (`Incomplete` is returned) -/
 def PR.orElse {α : Type} (a : PR α) (b : Unit → PR α) : PR α :=
@@ -293,13 +293,6 @@ def splitOnSub (pat : Bytes) : Bytes → Option (Bytes × Bytes)
     else match splitOnSub pat r with
       | some (a, b) => some (c :: a, b)
       | none => none
-
-/-- `complete(take_until1(pat))` -/
-def takeUntil1C (pat i : Bytes) : PR Bytes :=
-  match splitOnSub pat i with
-  | none => .err
-  | some ([], _) => .err
-  | some (k, rest) => .ok k rest
 
 /-- `line_ending` (streaming) -/
 def lineEnding : Bytes → PR Unit
@@ -452,43 +445,29 @@ def armorHeaderLine (i : Bytes) : PR BlockType :=
         | .err => .err
         | .ok _ r4 => .ok t r4
 
-/-- the key of `key_value_pair`: the three `complete(take_until1(..))` alternatives, in order, each
-searching the *whole* remaining input; then `str::from_utf8` -/
-def kvKey (i : Bytes) : PR Bytes :=
-  match ((takeUntil1C [COLON, CR, LF] i).orElse fun _ =>
-         (takeUntil1C [COLON, LF] i).orElse fun _ => takeUntil1C [COLON, SP] i) with
-  | .ok k r => if validUtf8 k then .ok k r else .err
-  | x => x
+/-- `line.split_once(": ")`, else `line.strip_suffix(':')` with an empty value, else no key -/
+def kvSplit (line : Bytes) : Bytes × Bytes :=
+  match splitOnSub [COLON, SP] line with
+  | some (k, rest) => (k, rest.drop 2)
+  | none => if line.getLast? = some COLON then (line.dropLast, []) else ([], [])
 
-/-- `key_value_pair` -/
+/-- `key_value_pair` (line based since the repair of D10c): exactly one line — `not_line_ending`
+(streaming) checked by `str::from_utf8`, then its `line_ending`; the key ends at the first `": "` of
+the line, or at a `:` that ends the line (empty value); a line with neither, or with an empty key,
+is an `Error` -/
 def kvPair (i : Bytes) : PR (Bytes × Bytes) :=
-  match kvKey i with
+  match notLineEnding i with
   | .inc => .inc
   | .err => .err
-  | .ok k r =>
-    match tagS [COLON] r with
-    | .inc => .inc
-    | .err => .err
-    | .ok _ r1 =>
-      -- alt((tag(" "), line_ending))
-      match tagS [SP] r1 with
+  | .ok line r =>
+    if validUtf8 line then
+      match lineEnding r with
       | .inc => .inc
-      | .ok _ r2 =>
-        match notLineEnding r2 with
-        | .inc => .inc
-        | .err => .err
-        | .ok v r3 =>
-          if validUtf8 v then
-            match lineEnding r3 with
-            | .inc => .inc
-            | .err => .err
-            | .ok _ r4 => .ok (k, v) r4
-          else .err
-      | .err =>
-        match lineEnding r1 with
-        | .inc => .inc
-        | .err => .err
-        | .ok _ r2 => .ok (k, []) r2
+      | .err => .err
+      | .ok _ rest =>
+        let kv := kvSplit line
+        if kv.1.isEmpty then .err else .ok kv rest
+    else .err
 
 /-- `many0(complete(key_value_pair))`; `fuel` ≥ input length (every pair consumes input) -/
 def kvPairs : Nat → Bytes → List (Bytes × Bytes) × Bytes
